@@ -1,6 +1,7 @@
 import JunoModel.C10.Proofs
 import JunoModel.C10.ProofsR5
 import JunoModel.C10.ProofsComplete
+import JunoModel.C10.ProofsR6
 /-!
 C10 — Merkle proofs verify against the root and cannot be forged by tampering.
 Property theorems only (lemmas are in `Proofs.lean`; witnesses of defects that are fixed in /repo are
@@ -312,8 +313,9 @@ example : verifySingle freeAlg RCfg.strict (exTree.hash freeAlg) [true, true, fa
 
 `verifyRange` is the exported function: `verifyProofData` on the FELTS, the choice between the no-proof /
 empty / single-element / general case, and `SetFelt(251, ·)` on every key.  `ck` is the variant of the code:
-`true` = a first key or a listed key of `2^height` or more is refused (proposed-fixes/C10-rangeproof-keys-
-above-2-251.diff), `false` = /repo as it is.  The harness probes which one it is looking at. -/
+`true` = a first key or a listed key of `2^height` or more is refused (/repo since 0a848cd), `false` = the code
+before (witnesses `Regress.range_verify_sound_partial_before_0a848cd`, `Regress.range_felt_key_alias_before_0a848cd`).
+The harness probes which one it is looking at; anything but `true` is a violation. -/
 
 /-- THE statement about `VerifyRangeProof(root, first, keys, values, proof)` with a proof, for the variant that
 checks its keys: accepted, for ANY node set, ⇒ `first` and every listed key are below `2^n`, every felt key `k`
@@ -330,33 +332,6 @@ theorem range_verify_sound (A : HashAlg H) (hI : Ideal A) (rc : RCfg) (hch : rc.
       t.get A (pathOfNat n k) = (lastValF kvs k).getD A.zero) ∧
     (more = true ↔ ∃ l, kvs.getLast? = some l ∧ GtIn t n (pathOfNat n l.1)) :=
   verifyRange_sound hI rc hch hev hlh hul true t n hwf hnz hn first kvs P more (Or.inl rfl) h
-
-/-- The same for /repo AS IT IS (`ck = false`), PARTIAL: only under the side condition that `first` and the
-listed keys are below `2^n`.  What is missing: the code does not check it — see `range_felt_key_alias`. -/
-theorem range_verify_sound_partial (A : HashAlg H) (hI : Ideal A) (rc : RCfg) (hch : rc.checkHash = true)
-    (hev : rc.earlyValue = false) (hlh : rc.leafHash = true) (hul : rc.unsetLeaf = true)
-    (t : Tree H) (n : Nat) (hwf : WF t n) (hnz : t.NZ A) (hn : 0 < n) (first : Nat) (kvs : List (Nat × H))
-    (P : PSet H) (more : Bool) (hb : first < 2 ^ n ∧ ∀ kv ∈ kvs, kv.1 < 2 ^ n)
-    (h : verifyRange A rc false n (t.hash A) first kvs (some P) = .ok more) :
-    (∀ k, k < 2 ^ n → first ≤ k → (∀ l, kvs.getLast? = some l → k ≤ l.1) →
-      t.get A (pathOfNat n k) = (lastValF kvs k).getD A.zero) ∧
-    (more = true ↔ ∃ l, kvs.getLast? = some l ∧ GtIn t n (pathOfNat n l.1)) :=
-  (verifyRange_sound hI rc hch hev hlh hul false t n hwf hnz hn first kvs P more (Or.inr hb) h).2
-
-/-- The defect (known findings `trie2:range:*key-plus-2^251*`, `…keys-wrap-2^251…`): without the check the
-single-element claim about the felt `2^n + k` is verified exactly like the claim about `k`; concretely, in the
-example trie the honest proof of 110 ↦ 8 is accepted for the felt `2^3 + 6`, a key no trie of height 3 holds,
-and the variant with the check refuses it.  (On the real code the general case also accepts a range with a
-gap, `first = 5, keys = [5, 3 + 2^251]` over {3, 5, 9, 12}, and panics for `first = k, keys = [k + 2^251]`; there
-the paths are not increasing, which is outside the model's `fill`.) -/
-theorem range_felt_key_alias (A : HashAlg H) (rc : RCfg) (n : Nat) (root : H) (k : Nat) (v : H) (P : PSet H) :
-    verifyRange A rc false n root (2 ^ n + k) [(2 ^ n + k, v)] (some P) =
-      verifyRange A rc false n root k [(k, v)] (some P) ∧
-    verifyRange freeAlg RCfg.strict false 3 (exTree.hash freeAlg) (2 ^ 3 + 6) [(2 ^ 3 + 6, .felt 8)]
-      (some (Trie.prove freeAlg false false (some exTree) [true, true, false])) = .ok true ∧
-    verifyRange freeAlg RCfg.strict true 3 (exTree.hash freeAlg) (2 ^ 3 + 6) [(2 ^ 3 + 6, .felt 8)]
-      (some (Trie.prove freeAlg false false (some exTree) [true, true, false])) = .err :=
-  ⟨verifyRange_alias rc n root k v P, by decide, by decide⟩
 
 /-- The no-proof case of `VerifyRangeProof` (`proof == nil`), variant with the key check: accepted ⇒ the keys
 are below `2^n`, `more = false` and the trie holds exactly the list. -/
@@ -513,6 +488,164 @@ theorem range_proof_nodes_verify (A : HashAlg H) (hI : Ideal A) (cfg : Cfg) (hz 
       proveAll_verifies_raw hI cfg hz t n hwf hnz hn h256 legacy _ left (by simp)⟩
   · exact ⟨proveAll_verifies_raw hI cfg hz t n hwf hnz hn h256 legacy _ left (by simp),
       proveAll_verifies_raw hI cfg hz t n hwf hnz hn h256 legacy _ right (by simp)⟩
+
+/-! ## `Prove` into a set that already holds nodes (round 6)
+
+Both `Trie.Prove(key, proofSet)` ADD to the set they are handed (`proveOneInto`, `proveInto`: `OrderedSet.Put` of
+every node of the path).  The RPC handlers prove all requested keys of a mapping into one set, `GetRangeProof`
+both boundaries; a caller may hand in a set that holds anything.  The provers must not conclude anything from
+what the set holds: two identical subtrees under different edge paths share their binary node but not the edge
+nodes above it.  What the verifiers need is only that the set RETURNS the proof's nodes for their hashes:
+they read the set through `Get` alone, so more content never hurts (`verify_superset_monotone`). -/
+
+/-- Both `VerifyProof` (every variant) are MONOTONE in the node set: if `Q` returns for every hash at least what
+`P` returns (`Q.Extends P`: a superset, whatever else it holds), then whatever verifies with `P` verifies with `Q`
+to the same value. -/
+theorem verify_superset_monotone (A : HashAlg H) (cfg : Cfg) (root : H) (k : Path) (P Q : PSet H)
+    (hPQ : Q.Extends P) (v : H) :
+    (verifyL A cfg root k P = Res.ok v → verifyL A cfg root k Q = Res.ok v) ∧
+    (verify2 A cfg root k P = Res.ok v → verify2 A cfg root k Q = Res.ok v) :=
+  ⟨verifyL_mono hPQ cfg root k v, verify2_mono hPQ cfg root k v⟩
+
+/-- Completeness of ONE `Prove(k, set)` for EVERY pre-existing content `s0` of the set (no hypothesis on `s0`:
+nodes of other keys, of other tries, entries that do not hash to their key), either prover, every trie empty or
+not, every key: afterwards both verifiers return the actual value of `k`.  (`Put` replaces what sat under the
+hashes of the path; nothing else is looked up.) -/
+theorem prove_into_any_set_complete (A : HashAlg H) (hI : Ideal A) (hac : Acyclic A) (cfg : Cfg)
+    (hz : cfg.zeroRoot = true) (t : Trie H) (n : Nat) (hwf : Trie.WF t n) (hnz : Trie.NZ A t)
+    (hn : 0 < n) (h256 : n < 256) (legacy : Bool) (s0 : PSet H) (k : Nat) :
+    verifyL A cfg (t.hash A) (pathOfNat n k) (proveOneInto A legacy n t s0 k) =
+      Res.ok (t.get A (pathOfNat n k)) ∧
+    verify2 A cfg (t.hash A) (pathOfNat n k) (proveOneInto A legacy n t s0 k) =
+      Res.ok (t.get A (pathOfNat n k)) := by
+  cases t with
+  | none => simp [Trie.hash, Trie.get, verifyL, verify2, hz]
+  | some s =>
+    have hlook := proveOneInto_lookup hac legacy n s s0 k
+    refine ⟨?_, trie2_complete_tree hI cfg s n hwf hn h256 _ (pathOfNat_length _ _) legacy false _ hlook⟩
+    apply verifyL_mono (P := toPSet A (s.proveNodes A legacy false (pathOfNat n k)))
+    · intro h nd hg
+      have hm := PSet.get_mem hg
+      simp only [toPSet, List.mem_map] at hm
+      obtain ⟨nd', hnd', heq⟩ := hm
+      have h1 : nd'.hash A = h := congrArg Prod.fst heq
+      have h2 : nd' = nd := congrArg Prod.snd heq
+      rw [← h1, ← h2]
+      exact hlook nd' hnd'
+    · exact legacy_complete_tree hI cfg s n hwf hnz hn h256 _ (pathOfNat_length _ _) legacy false _
+        (fun nd hnd => List.mem_map.mpr ⟨nd, hnd, rfl⟩) (toPSet_consistent _)
+
+/-- SEVERAL keys proven into one set that held ANY self-consistent content before (every entry hashes to its key:
+what earlier `Prove` calls on this or any other trie leave there), either prover: every one of the keys verifies
+with `trie.VerifyProof` (the verifier of wire nodes: felts only) to its actual value.  This is the situation of
+the RPC handlers and of `GetRangeProof`; `proveAll` of round 5 is the case `s0 = []`. -/
+theorem prove_many_into_consistent_set_complete (A : HashAlg H) (hI : Ideal A) (cfg : Cfg)
+    (hz : cfg.zeroRoot = true) (t : Trie H) (n : Nat) (hwf : Trie.WF t n) (hnz : Trie.NZ A t)
+    (hn : 0 < n) (h256 : n < 256) (legacy : Bool) (s0 : PSet H) (hcons : ∀ e ∈ s0, e.1 = e.2.hash A)
+    (keys : List Nat) (k : Nat) (hk : k ∈ keys) :
+    verifyL A cfg (t.hash A) (pathOfNat n k) (proveInto A legacy n t s0 keys) =
+      Res.ok (t.get A (pathOfNat n k)) := by
+  cases t with
+  | none => simp [verifyL, Trie.hash, Trie.get, hz]
+  | some s =>
+    obtain ⟨hsub, _, hcov⟩ := proveInto_spec (A := A) legacy n (some s) keys s0
+    apply legacy_complete_keys hI cfg s n hwf hnz hn h256 _ (pathOfNat_length _ _) legacy false
+    · intro nd hnd
+      exact hcov k hk _ (List.mem_map.mpr ⟨nd, hnd, rfl⟩)
+    · intro e he
+      rcases hsub e he with h | ⟨k', _, hm⟩
+      · exact hcons e h
+      · exact toPSet_consistent _ e hm
+
+/-- height 3, two IDENTICAL subtrees {0 ↦ 5, 1 ↦ 6} under the different edge paths 0 and 1 of the two children of
+the root: keys 000, 001, 110, 111 -/
+def twinTree : Tree HTerm :=
+  .bin (.edge [false] (.bin (.leaf (.felt 5)) (.leaf (.felt 6))))
+       (.edge [true] (.bin (.leaf (.felt 5)) (.leaf (.felt 6))))
+
+-- non-vacuity: the second key lies under the twin of the first key's subtree; the set held a node of another
+-- trie (`exTree`) and an entry that does not hash to its key before
+example : verifyL freeAlg Cfg.strict (twinTree.hash freeAlg) (pathOfNat 3 6)
+    (proveInto freeAlg true 3 (some twinTree) (Trie.prove freeAlg true false (some exTree) [true, true, false]) [0, 6])
+    = .ok (.felt 5) := by decide
+example : verify2 freeAlg Cfg.strict (twinTree.hash freeAlg) (pathOfNat 3 6)
+    (proveOneInto freeAlg false 3 (some twinTree)
+      (proveOneInto freeAlg false 3 (some twinTree) [(.felt 1, .bin ⟨.hash, .felt 2⟩ ⟨.hash, .felt 3⟩ none)] 0) 6)
+    = .ok (.felt 5) := by decide
+example : PSet.Extends (Trie.prove freeAlg false false (some exTree) [true, true, false] ++
+      Trie.prove freeAlg false false (some exTree) [false, false, true])
+    (Trie.prove freeAlg false false (some exTree) [true, true, false]) := by
+  intro h nd hg
+  rw [PSet.get_append, hg]
+
+/-! ### `trie2.VerifyProof` on a set that holds several keys: the Go type of a child decides (finding 16)
+
+The legacy-type verifier reads felts only, so `prove_many_into_consistent_set_complete` needs nothing about the
+values.  `trie2.VerifyProof` refuses a child of Go type `*ValueNode` while key bits are left; the type is not
+covered by the parent's hash.  When two sibling leaves hold the hashes of the two children of an inner binary
+node (the owner of a storage trie chooses its values), the bottom node (value children) and the inner node (hash
+children) have ONE hash, the set keeps the one `Put` last, and the honest proof of a key below the inner node is
+REJECTED: `prove_many_trie2_value_equals_node_hash_rejected`.  Without such a coincidence it is complete:
+`prove_many_trie2_complete_partial`.  The repaired function (`verify2W`: a value child is followed like a hash
+child) stays sound: `proof_sound_trie2_value_walks`. -/
+
+/-- PARTIAL (what is missing: the hypothesis `huniq` — two nodes of the proofs with one hash are one node — which
+`trie2.VerifyProof` of /repo needs and which fails for chosen values, see the next theorem): several keys proven
+by either prover into one (empty) set, every key verifies with `trie2.VerifyProof` to its actual value. -/
+theorem prove_many_trie2_complete_partial (A : HashAlg H) (hI : Ideal A) (cfg : Cfg)
+    (hz : cfg.zeroRoot = true) (t : Trie H) (n : Nat) (hwf : Trie.WF t n)
+    (hn : 0 < n) (h256 : n < 256) (legacy : Bool) (keys : List Nat)
+    (huniq : ∀ s, t = some s → ∀ k1 ∈ keys, ∀ k2 ∈ keys,
+      ∀ n1 ∈ s.proveNodes A legacy false (pathOfNat n k1), ∀ n2 ∈ s.proveNodes A legacy false (pathOfNat n k2),
+        n1.hash A = n2.hash A → n1 = n2)
+    (k : Nat) (hk : k ∈ keys) :
+    verify2 A cfg (t.hash A) (pathOfNat n k) (proveInto A legacy n t [] keys) =
+      Res.ok (t.get A (pathOfNat n k)) := by
+  cases t with
+  | none => simp [verify2, Trie.hash, Trie.get, hz]
+  | some s =>
+    obtain ⟨hsub, _, hcov⟩ := proveInto_spec (A := A) legacy n (some s) keys []
+    apply trie2_complete_tree hI cfg s n hwf hn h256 _ (pathOfNat_length _ _) legacy false
+    intro nd hnd
+    obtain ⟨x, hx⟩ := PSet.get_some_of_hasKey (hcov k hk (nd.hash A, nd) (List.mem_map.mpr ⟨nd, hnd, rfl⟩))
+    rw [hx]
+    rcases hsub _ (PSet.get_mem hx) with h0 | ⟨k', hk', hm⟩
+    · simp at h0
+    · simp only [Trie.prove, toPSet, List.mem_map] at hm
+      obtain ⟨nd', hnd', heq⟩ := hm
+      have h1 : nd'.hash A = nd.hash A := congrArg Prod.fst heq
+      have h2 : nd' = x := congrArg Prod.snd heq
+      rw [← h2, huniq s rfl k' hk' k hk nd' hnd' nd hnd h1]
+
+/-- height 3: 000 ↦ 5, 011 ↦ 7 under the inner binary node at prefix 0; the sibling leaves 110, 111 hold the
+hashes of that node's two children -/
+def valueHashTree : Tree HTerm :=
+  .bin (.bin (.edge [false] (.leaf (.felt 5))) (.edge [true] (.leaf (.felt 7))))
+       (.edge [true] (.bin (.leaf ((Tree.edge [false] (.leaf (.felt 5)) : Tree HTerm).hash freeAlg))
+                           (.leaf ((Tree.edge [true] (.leaf (.felt 7)) : Tree HTerm).hash freeAlg))))
+
+/-- THE DEFECT (known finding `trie2:honest-shared-set:value-equals-node-hash:rejected-by-own-verifier`), on the
+model: `Prove(000)` and then `Prove(110)` into one set, as `GetRangeProof(000, 110)` does.  `trie2.VerifyProof` of
+/repo rejects the honest proof of 000 ("value node before the key is consumed"), the legacy-type verifier and the
+repaired `trie2.VerifyProof` return 5; in the other order all is well. -/
+theorem prove_many_trie2_value_equals_node_hash_rejected :
+    verify2 freeAlg Cfg.strict (valueHashTree.hash freeAlg) (pathOfNat 3 0)
+      (proveInto freeAlg false 3 (some valueHashTree) [] [0, 6]) = .earlyValue ∧
+    verifyL freeAlg Cfg.strict (valueHashTree.hash freeAlg) (pathOfNat 3 0)
+      (proveInto freeAlg false 3 (some valueHashTree) [] [0, 6]) = .ok (.felt 5) ∧
+    verify2W freeAlg Cfg.strict (valueHashTree.hash freeAlg) (pathOfNat 3 0)
+      (proveInto freeAlg false 3 (some valueHashTree) [] [0, 6]) = .ok (.felt 5) ∧
+    verify2 freeAlg Cfg.strict (valueHashTree.hash freeAlg) (pathOfNat 3 0)
+      (proveInto freeAlg false 3 (some valueHashTree) [] [6, 0]) = .ok (.felt 5) := by
+  decide
+
+/-- The repaired `trie2.VerifyProof` (`verify2W`; proposed-fixes/C10-trie2-verifyproof-value-child-walks-on.diff)
+is sound against EVERY node set, like the function of today (`proof_sound_trie2`): following a value child costs
+nothing, its felt is covered by the parent's hash exactly like that of a hash child. -/
+theorem proof_sound_trie2_value_walks (A : HashAlg H) (hI : Ideal A) (n : Nat) (hn : 0 < n) (r : H) (k : Path)
+    (hk : k.length = n) (P : PSet H) (v : H) (h : verify2W A Cfg.strict r k P = Res.ok v) :
+    ∀ t : Trie H, Trie.WF t n → Trie.NZ A t → t.hash A = r → t.get A k = v :=
+  proof_sound_trie2 A hI n hn r k hk (P.valueAsHash A) v h
 
 /-- The edge path on the wire (`path` = `Path.Felt()`, `length` = `Path.Len()`) decoded by `EdgeNode.AsProofNode`
 (`SetBytes(uint8(length), …)`) is the path of the node: nothing is lost for lengths below 256 (a trie has 251). -/
